@@ -347,8 +347,11 @@ def finish(ctx: Ctx, level: str) -> int:
         if n_viol == 0:
             raise HarnessError(ctx.nondeterministic[0])
         cov["notes"] = list(cov.get("notes", [])) + ["re-execution of an item differed: " + x for x in ctx.nondeterministic]
-    os.makedirs(os.path.join(ROOT, "evidence"), exist_ok=True)
-    evp = os.path.join(ROOT, "evidence", f"{pid}.json")
+    # evidence/<id>.json describes runs against /repo only; a run against another tree (VERIF_REPO=<scratch worktree>,
+    # used to evaluate seeded changes) writes its evidence next to the scratch files instead
+    evdir = os.path.join(ROOT, "evidence") if os.path.realpath(REPO) == "/repo" else os.path.join(ROOT, ".work", "evidence_other_tree")
+    os.makedirs(evdir, exist_ok=True)
+    evp = os.path.join(evdir, f"{pid}.json")
     with open(evp, "w") as f:
         json.dump(ev, f, indent=1, sort_keys=True)
     validate_evidence(evp)
